@@ -1,5 +1,6 @@
 import ServlinVerif.Props.C04
 import ServlinVerif.Props.C04Pipeline
+import ServlinVerif.Props.C04Steps
 open Servlin.C04
 #print axioms C04_runs_per_request
 #print axioms C04_legacy_twice
@@ -13,3 +14,9 @@ open Servlin.C04P
 #print axioms C04_pipeline_eof
 #print axioms good_plain
 #print axioms good_plain_length
+open Servlin.C04S
+#print axioms C04_pipeline_steps
+#print axioms C04_pipeline_steps_eof
+#print axioms C04_pipeline_steps_then_error
+#print axioms step_good
+#print axioms step_upload
